@@ -7,6 +7,9 @@
 (*   store[c][m]  the context's instance of module m: loaded?, an attribute set on it            *)
 (*   syspath[c], sysargv[c]   the entries of sys.path / sys.argv behind the fixed first entry    *)
 (*   builtins[c]  a rebinding of a name in the context's builtins module                         *)
+(*   sysout[c]    whether the context has rebound its sys.stdout to a writer of its own; print,   *)
+(*                a builtin, must reach the sys module of the context it runs in, whatever other *)
+(*                contexts exist or are created later                                            *)
 (* The registry of module implementations (Mods, SrcMods) is read-only.                          *)
 (* `shared` is the state the IMPLEMENTATION really shares between contexts:                      *)
 (*   tattr  an attribute assigned on a builtin type (type dictionaries are process-wide)         *)
@@ -46,6 +49,7 @@ OpList == << Op("SetGlobal", ""), Op("GetGlobal", ""),
              Op("SetSys", "path"), Op("SetSys", "argv"),
              Op("ReadSys", "path"), Op("ReadSys", "argv"),
              Op("RebindBuiltin", ""), Op("CallBuiltin", ""),
+             Op("RebindStdout", ""), Op("Print", ""),
              Op("SetTypeAttr", ""), Op("GetTypeAttr", ""),
              Op("MutateImplObject", ""), Op("ReadImplObject", ""),
              Op("ReplLine", "") >>
@@ -58,6 +62,7 @@ Component(o) ==
     [] o \in {"Import", "SetModAttr", "GetModAttr"}     -> [name |-> "imported module state", writer |-> "SetModAttr"]
     [] o \in {"AppendSys", "SetSys", "ReadSys"}         -> [name |-> "sys.path/sys.argv", writer |-> "AppendSys"]
     [] o \in {"RebindBuiltin", "CallBuiltin"}           -> [name |-> "builtins module", writer |-> "RebindBuiltin"]
+    [] o \in {"RebindStdout", "Print"}                  -> [name |-> "link of the builtins to their own context's sys", writer |-> "Print"]
     [] o \in {"SetTypeAttr", "GetTypeAttr"}             -> [name |-> "builtin type dictionary", writer |-> "SetTypeAttr"]
     [] o \in {"MutateImplObject", "ReadImplObject"}     -> [name |-> "object in ModuleImpl.Globals (os.environ)", writer |-> "MutateImplObject"]
     [] o = "ReplLine"                                   -> [name |-> "vm.PrintExpr", writer |-> "ReplLine"]
@@ -73,8 +78,8 @@ ConfigSeq == << "explicit", "zero", "default" >>
 VARIABLES seed, started,    \* Init picks a seed; the first step (Pick) picks the case and starts the contexts
           script, policy, config, lazy,  \* the case: chosen by Pick, never changed afterwards
           solo,             \* function of the case, computed by Pick: SoloOf(c, script[c], policy)
-          ip, main, store, syspath, sysargv, builtins, replst, shared, obs, order
-vars == <<seed, started, script, policy, config, lazy, solo, ip, main, store, syspath, sysargv, builtins, replst, shared, obs, order>>
+          ip, main, store, syspath, sysargv, builtins, sysout, replst, shared, obs, order
+vars == <<seed, started, script, policy, config, lazy, solo, ip, main, store, syspath, sysargv, builtins, sysout, replst, shared, obs, order>>
 
 None    == [has |-> FALSE, v |-> ""]
 Some(v) == [has |-> TRUE, v |-> v]
@@ -96,6 +101,7 @@ Local0 == [main     |-> [g |-> None],
            syspath  |-> <<>>,
            sysargv  |-> <<>>,
            builtins |-> None,
+           sysout   |-> FALSE,
            replst   |-> [mid |-> FALSE, saved |-> "default"]]
 View0  == [tattr |-> None, env |-> None, pe |-> "default"]
 
@@ -128,6 +134,10 @@ Eff(c, st, L, S, pol) ==
        [] o = "ReadSys"    -> R(L, S, JoinBar(SysGet(L, a)))
        [] o = "RebindBuiltin" -> R([L EXCEPT !.builtins = Some(v)], S, "")
        [] o = "CallBuiltin"   -> R(L, S, IF L.builtins.has THEN L.builtins.v ELSE "1")
+       \* the observation of Print names the writer that received the text: the context's initial sys.stdout
+       \* ("std") or the writer it installed itself ("own") - always one of the printing context's own
+       [] o = "RebindStdout"  -> R([L EXCEPT !.sysout = TRUE], S, "")
+       [] o = "Print"         -> R(L, S, (IF L.sysout THEN "own:" ELSE "std:") \o v)
        \* Python allows an implementation to refuse assignment on a builtin type (CPython: TypeError)
        [] o = "SetTypeAttr" -> IF pol = "reject" THEN R(L, S, "exc:TypeError")
                                                  ELSE R(L, [S EXCEPT !.tattr = Some(v)], "")
@@ -151,7 +161,7 @@ SoloOf(c, s, pol) ==
   IN r.obs
 
 Pack(c) == [main |-> main[c], store |-> store[c], syspath |-> syspath[c], sysargv |-> sysargv[c],
-            builtins |-> builtins[c], replst |-> replst[c]]
+            builtins |-> builtins[c], sysout |-> sysout[c], replst |-> replst[c]]
 
 \* the step context c takes next
 CurStep(c) == LET o == OpList[script[c][ip[c]]] IN
@@ -181,6 +191,7 @@ Init == /\ seed \in Seeds
         /\ syspath = [c \in Ctx |-> Local0.syspath]
         /\ sysargv = [c \in Ctx |-> Local0.sysargv]
         /\ builtins = [c \in Ctx |-> Local0.builtins]
+        /\ sysout = [c \in Ctx |-> Local0.sysout]
         /\ replst = [c \in Ctx |-> Local0.replst]
         /\ shared = [c \in Ctx |-> View0]
         /\ obs = [c \in Ctx |-> <<>>]
@@ -196,7 +207,7 @@ Pick == /\ ~started
              /\ \E pol \in (IF UsesTypes(a) THEN Policies ELSE {"percontext"}) :
                   /\ policy' = pol
                   /\ solo' = [c \in Ctx |-> SoloOf(c, a[c], pol)]
-        /\ UNCHANGED <<seed, ip, main, store, syspath, sysargv, builtins, replst, shared, obs, order>>
+        /\ UNCHANGED <<seed, ip, main, store, syspath, sysargv, builtins, sysout, replst, shared, obs, order>>
 
 Step(c) ==
   /\ started
@@ -209,6 +220,7 @@ Step(c) ==
      /\ syspath' = [syspath EXCEPT ![c] = e.L.syspath]
      /\ sysargv' = [sysargv EXCEPT ![c] = e.L.sysargv]
      /\ builtins' = [builtins EXCEPT ![c] = e.L.builtins]
+     /\ sysout' = [sysout EXCEPT ![c] = e.L.sysout]
      /\ replst' = [replst EXCEPT ![c] = e.L.replst]
      /\ shared' = IF Shared THEN [d \in Ctx |-> e.S] ELSE [shared EXCEPT ![c] = e.S]
      /\ obs' = [d \in Ctx |-> obs[d] \o (IF d = e.echoTo THEN <<e.echo>> ELSE <<>>)
